@@ -1,5 +1,5 @@
 """C07 - clone fidelity and independence."""
-from pgverif import symtree_check
+from pgverif import dnaclone, symtree_check, tlc
 
 META = {
     'level': 'model_checking',
@@ -43,9 +43,35 @@ def run(chk):
                                        max_states=400 if not thorough else 20000, seed=chk.seed)
   for kk, v in h.items():
     hits[kk] = hits.get(kk, 0) + v
+  dna_clones(chk, thorough)
   chk.notes['action_outcome_hits'] = dict(sorted(hits.items()))
   for need in ('Clone:ok', 'Seal:ok', 'SetAccW:ok', 'DictSet:ok', 'ListAppend:ok', 'Rebind:ok'):
     chk.require(hits.get(need, 0) > 0, f'vacuous: no replayed step {need}')
+
+
+def dna_clones(chk, thorough):
+  """pg.DNA clones (geno/base.py): DnaClone.tla checked exhaustively, simulated behaviours replayed."""
+  r = tlc.run('DnaClone', 'C07_dna.cfg', timeout=900)
+  chk.add_tlc(r)
+  chk.require(r.ok, f'DnaClone.tla: {r.violated} violated in the model')
+  behaviours, r2 = tlc.simulate('DnaClone', 'C07_dna_sim.cfg', num=400 if not thorough else 6000, depth=30, seed=chk.seed + 5)
+  chk.add_tlc(r2, count_states=False)
+  hits = {}
+  for beh in behaviours:
+    rp = dnaclone.Replayer()
+    d = rp.replay(beh)
+    chk.traces += 1
+    chk.evaluations += (d['step'] if d else len(beh) - 1)
+    chk.distinct_case(('dna', [s.state['act'] for s in beh[1:]]))
+    for k, v in rp.hits.items():
+      hits[k] = hits.get(k, 0) + v
+    if d is not None:
+      chk.violation({'spec': 'DnaClone', 'action': d['act'][0], 'clause': d['clause']},
+                    {'cfg': 'C07_dna_sim.cfg', 'step': d['step'], 'act': d['act'], 'what': d['detail'],
+                     'history': [s.state['act'] for s in beh[1:d['step'] + 1]]})
+  chk.notes['dna_clone_hits'] = hits
+  for need in ('Clone', 'SetMeta', 'SetUser'):
+    chk.require(hits.get(need, 0) > 0, f'vacuous: no replayed DNA step {need}')
 
 
 def only_after_copy(d):
